@@ -170,11 +170,19 @@ var reEnd = regexp.MustCompile(`^END (\d+)$`)
 
 // runChunk runs seeds [first, first+count) in one process; a process that dies is
 // attributed to the seed in flight and the rest of the chunk is run in a new process.
+// a chunk normally takes seconds (quick tier: 100 runs) to a minute or two (thorough: 400
+// runs, C15/C17 slower); a run that spins is killed by the test binary's own time-out and
+// attributed to its seed, a process that does not even do that by the watchdog (exit 2)
+var (
+	chunkTestTimeout = "20m"
+	chunkWatchdog    = 25 * time.Minute
+)
+
 func runChunk(bin, profile string, ck chunk, gomaxprocs int, extra ...string) workerOut {
 	var wo workerOut
 	first, count := ck.first, ck.count
 	for count > 0 {
-		args := []string{"-test.run", "^TestSim$", "-test.timeout", "20m",
+		args := []string{"-test.run", "^TestSim$", "-test.timeout", chunkTestTimeout,
 			"-sim.profile", profile, "-sim.seed", fmt.Sprint(first), "-sim.count", fmt.Sprint(count)}
 		args = append(args, extra...)
 		cmd := exec.Command(bin, args...)
@@ -191,7 +199,7 @@ func runChunk(bin, profile string, ck chunk, gomaxprocs int, extra ...string) wo
 		timedOut := false
 		select {
 		case werr = <-done:
-		case <-time.After(25 * time.Minute):
+		case <-time.After(chunkWatchdog):
 			cmd.Process.Kill()
 			<-done
 			timedOut = true
@@ -223,7 +231,7 @@ func runChunk(bin, profile string, ck chunk, gomaxprocs int, extra ...string) wo
 			}
 		}
 		if timedOut {
-			fail2("watchdog: worker for profile %s seeds %d.. did not finish in 25 minutes (real time)", profile, first)
+			fail2("watchdog: worker for profile %s seeds %d.. did not finish in %v (real time)", profile, first, chunkWatchdog)
 		}
 		if werr == nil && !have {
 			return wo
@@ -604,6 +612,9 @@ func cmdRun(args []string) int {
 	bin := build(race)
 	buildSecs := time.Since(start).Seconds()
 	spec := tierOf(prop, tier)
+	if tier == "quick" {
+		chunkTestTimeout, chunkWatchdog = "8m", 10*time.Minute
+	}
 	if secsOverride > 0 {
 		spec.secs = secsOverride
 	}
